@@ -52,8 +52,19 @@ def write_shapes():
 NVALS = {'MSET k1 v1 k2 v2': 2, 'mset k1 v1 k2 v2 k3 v3': 3, 'MSETNX k1 v1 k2 v2': 2, 'msetnx k1 v1 k2 v2 k3 v3': 3}
 
 
-def spec_of(strategy, cmds, m):
-    return {'strategy': strategy, 'cmds': [[[concretize(b, m) for b in el] for el in c] for c in cmds]}
+INFLATE = 1 << 22
+
+
+def conc_el(el, m, big=()):
+    """bytes of one command element under the model; a value element of a counterexample that depends on the decompressed
+    size exceeding a buffer capacity stands for a large, highly compressible value: the witness bytes repeated to 4 MiB"""
+    bs = [concretize(b, m) for b in el]
+    if any(el is v for v in big): return {'repeat': bs or [0], 'times': INFLATE // max(1, len(bs))}
+    return bs
+
+
+def spec_of(strategy, cmds, m, big=()):
+    return {'strategy': strategy, 'cmds': [[conc_el(el, m, big) for el in c] for c in cmds]}
 
 
 def tree_eq_bulk(t, val):
@@ -133,7 +144,7 @@ def roundtrip(ctx, job):
         else:
             items.append(('ok-reply-unaltered', 'C20/non-string-reply-altered/' + wname, wr == ('ok', ('Simple', L(b'OK'))), lambda m: wit(m, lambda m: {'reply': show_tree(wr, m)})))
         # (3) read back through the other proxy
-        expect = {}
+        expect = {}; exp_replies = []
         if old is not None: expect[K1] = old
         if not nx_blocked:
             for k, vi in stored: expect[k] = vals[vi]
@@ -142,7 +153,7 @@ def roundtrip(ctx, job):
                 for k in [K1, K2, K3][:len(stored)] + [KX]:
                     cmds.append([L(b'GET'), L(k)])
                     rr = reply_resp(e, handle(e, hB, cmds[-1]))
-                    exp = expect.get(k)
+                    exp = expect.get(k); exp_replies.append((len(cmds) - 1, exp))
                     ok = rr[0] == 'ok' and (tree_eq_bulk(rr[1], exp) if exp is not None else rr[1] == ('Bulk', None))
                     items.append(('get-returns-written-value', 'C20/value-not-byte-identical/GET-after-' + wname, ok,
                                   lambda m, rr=rr, exp=exp, n=len(cmds): dict(wit(m), reply=show_tree(rr, m), expected=show(exp, m) if exp is not None else None, upto=n)))
@@ -158,7 +169,7 @@ def roundtrip(ctx, job):
                 nv = symval('n', 1)
                 cmds.append([L(b'GETSET'), L(K1), nv])
                 rr = reply_resp(e, handle(e, hB, cmds[-1]))
-                exp = expect.get(K1)
+                exp = expect.get(K1); exp_replies.append((len(cmds) - 1, exp))
                 ok = rr[0] == 'ok' and (tree_eq_bulk(rr[1], exp) if exp is not None else rr[1] == ('Bulk', None))
                 items.append(('getset-returns-written-value', 'C20/value-not-byte-identical/GETSET-after-' + wname, ok,
                               lambda m, rr=rr, exp=exp: dict(wit(m), reply=show_tree(rr, m), expected=show(exp, m) if exp is not None else None)))
@@ -168,8 +179,10 @@ def roundtrip(ctx, job):
                 items.append(('get-returns-written-value', 'C20/value-not-byte-identical/GET-after-GETSET', rr2[0] == 'ok' and tree_eq_bulk(rr2[1], nv),
                               lambda m, rr2=rr2: dict(wit(m), reply=show_tree(rr2, m))))
         def rp(m):
-            sp = spec_of(strategy, cmds, m)
-            sp['expect_get'] = {k.decode(): ([concretize(b, m) for b in v]) for k, v in expect.items()}
+            big = [v for v in vals + [old] + [el for c in cmds for el in c if any(is_sym(b) for b in el)] if v is not None] if any(ev[0] == 'zstd-capacity-exceeded' for ev in e.events) else ()
+            sp = spec_of(strategy, cmds, m, big)
+            sp['expect_get'] = {k.decode(): conc_el(v, m, big) for k, v in expect.items()}
+            sp['expect_replies'] = [[i, None if v is None else conc_el(v, m, big)] for i, v in exp_replies]
             return {'kind': 'rust-test', 'filter': 'verif_replay_compression', 'spec': sp}
         ctx.require_all(e, items, replay=rp)
         return 1
